@@ -102,6 +102,16 @@ def run(sh):
     sh.samples.append({'is_burst_len': n, 'min_n_cycles': m, 'space': 'random geometric runs'})
 
 
+_run_generated = run
+
+
+def run(sh):      # noqa: F811 - thorough tier: the repository's own tests are one more workload for the same monitors
+    _run_generated(sh)
+    if sh.tier == 'thorough' and sh.shard == 0:
+        from .. import repotests
+        repotests.run(sh, PROP)
+
+
 def replay(sh, driver, case):
     one(sh, [bool(v) for v in case['is_burst']], case['min_n_cycles'], driver)
     sh.case_done(case, True)
